@@ -1051,7 +1051,10 @@ class C03(C02):
             r2 = decode(again["ok"])
             if not same(r, r2):
                 return f"{name}({v!r}, {b!r}) = {r!r} is not a fixed point: second application gives {r2!r}"
-            if exact_domain(v) and exact_domain(r) and (exact_domain(b) or isinstance(b, (list, tuple, set))):
+            # (de-duplication is about `==` between the items, whatever they are: the strict form is checked on every
+            # sequence; the numeric constraints only on the exact domains)
+            if (name == "lax_unique_items" and isinstance(r, (list, tuple))) or \
+                    (exact_domain(v) and exact_domain(r) and (exact_domain(b) or isinstance(b, (list, tuple, set)))):
                 base = name[4:]
                 try:
                     holds = sat(base, r, b)
